@@ -1,6 +1,6 @@
 use proc_macro2::TokenStream as TokenStream2;
 use quote::quote;
-use syn::{parse_quote, Data, DataEnum, DeriveInput, Error, Fields, FieldsNamed};
+use syn::{ext::IdentExt, parse_quote, Data, DataEnum, DeriveInput, Error, Fields, FieldsNamed};
 
 use crate::utils::*;
 
@@ -386,6 +386,7 @@ impl<'a> FieldInfo<'a> {
 
     /// Extract the serialized name from field attributes or use the field name.
     fn get_serialized_name(field: &syn::Field, default_name: &syn::Ident) -> String {
-        parse_zlink_string_attr(&field.attrs, "rename").unwrap_or_else(|| default_name.to_string())
+        parse_zlink_string_attr(&field.attrs, "rename")
+            .unwrap_or_else(|| default_name.unraw().to_string())
     }
 }
